@@ -54,7 +54,8 @@ func nodeFromModel(m *gen.Node) *Node {
 // opaque marker D/.wh..wh..opq removes every child D had, a whiteout D/.wh.X removes D/X —
 // then its additions and modifications (a directory merges with an existing directory,
 // anything else replaces what was there). Whiteouts and markers themselves, and the names
-// the eStargz format reserves at the root, are never part of the result.
+// the eStargz format reserves at the root, are never part of the result. A real 0/0
+// character device entry is applied as what overlayfs makes of it: a deletion.
 func ApplyOCI(layers [][]gen.Entry) *Node {
 	root := NewDir()
 	for _, ents := range layers {
@@ -96,7 +97,16 @@ func applyDir(dst *Node, src *gen.Node, dir string) {
 			applyDir(old, c, join(dir, name))
 			continue
 		}
-		dst.Kids[name] = nodeFromModel(c)
+		n := nodeFromModel(c)
+		if n.IsWhiteout() {
+			// A genuine 0/0 character device entry. Extracted into a snapshot directory
+			// and stacked by overlayfs (what every overlay-based snapshotter does with a
+			// layer tar) it IS a whiteout: the name and whatever lower layers have under
+			// it disappear. The kernel is the arbiter here (kernel stage of the check).
+			delete(dst.Kids, name)
+			continue
+		}
+		dst.Kids[name] = n
 	}
 }
 
